@@ -11,7 +11,10 @@
    Compute functions are opaque: a Section variable  fn : nat -> list val -> option val  (None = raises). *)
 From JV Require Import Lib.Base Lib.C15Val.
 
-Inductive ty := TInt | TStr | TListInt | TAny.
+(* TDictInt: Dict[str, int] — a dict VALUE (not a group of arguments); Namespace.as_dict is the identity on [val], so
+   the automatic Namespace -> dict conversion of apply_parsing_links (target / compute_fn parameter annotated as a
+   mapping) shows in the model only through this type check: a Namespace left unconverted is no Dict[str, int] *)
+Inductive ty := TInt | TStr | TListInt | TAny | TDictInt.
 Inductive kind := KPlain (t : ty) | KClass | KClassList.
 
 (* d_alias: the argument was declared with a second option string (add_argument("--b", "--b_alt") / ("--b", "-B")) *)
@@ -168,6 +171,7 @@ Definition accepts (t : ty) (v : val) : bool :=
   | TInt, VInt _ => true
   | TStr, VStr s => negb (is_boolenc s)
   | TListInt, VList l => forallb is_int l
+  | TDictInt, VMap m => forallb (fun kv => is_int (snd kv)) m
   | _, _ => false
   end.
 
